@@ -8,6 +8,7 @@ import (
 	logac "berty.tech/go-ipfs-log/accesscontroller"
 	"berty.tech/go-ipfs-log/identityprovider"
 	"berty.tech/go-orbit-db/accesscontroller"
+	acutils "berty.tech/go-orbit-db/accesscontroller/utils"
 	"berty.tech/go-orbit-db/address"
 	"berty.tech/go-orbit-db/iface"
 	cid "github.com/ipfs/go-cid"
@@ -69,7 +70,7 @@ func (o *simpleAccessController) GetAuthorizedByRole(role string) ([]string, err
 func (o *simpleAccessController) CanAppend(e logac.LogEntry, _ identityprovider.Interface, _ accesscontroller.CanAppendAdditionalContext) error {
 	for _, id := range o.allowedKeys["write"] {
 		if e.GetIdentity().ID == id || id == "*" {
-			return nil
+			return acutils.VerifyEntryIdentity(e)
 		}
 	}
 
